@@ -244,9 +244,11 @@ func parseDirectives(doc *ast.CommentGroup, tier string) *Config {
 			cfg.Bounds["float branches"] = "not pruned during exploration (both sides explored); every verdict query carries the full path condition"
 		case "fpsolver":
 			cfg.FPSolver = val
-			cfg.Bounds["float queries decided by"] = val
+			cfg.Bounds["float queries decided by"] = val + " (one-shot, full path condition)"
+			cfg.Stubs = append(cfg.Stubs, "trusted solver for the exact float queries: "+val)
 		case "fpexactin":
 			cfg.FPExactIn = append(cfg.FPExactIn, strings.Fields(rest)...)
+			cfg.Bounds["exact IEEE-754 arithmetic in the body of"] = rest
 		case "fpabstract":
 			if cfg.FPAbstract == nil {
 				cfg.FPAbstract = map[string]bool{}
